@@ -101,8 +101,11 @@ func runProp(p *Prog, info PropInfo, tier, out string, known []KnownFinding, see
 			}
 		}()
 		info.Rules(r)
-		if tier == "thorough" && info.Thorough != nil {
-			info.Thorough(r)
+		if tier == "thorough" {
+			thoroughGeneric(r)
+			if info.Thorough != nil {
+				info.Thorough(r)
+			}
 		}
 	}()
 	return r.Report(out, known, info, seed)
